@@ -285,7 +285,7 @@ func judge(b *Build, prop string, segIdx int, seg *Segment, out *RunOut, refs *R
 		}
 	}
 	if out.Races() > 0 {
-		if moduleInText(b.Module, out.RaceLog) {
+		if libraryRace(b.Module, out.RaceLog) {
 			vs = append(vs, Violation{Class: "data-race", What: raceWhere(b.Module, out.RaceLog), Detail: fmt.Sprintf("%d data race report(s) from the Go race detector", out.Races()), Seg: segIdx, Extra: head(out.RaceLog, 8000)})
 		} else {
 			return nil, herr("race report without a frame of the module under test (harness race?):\n%s", head(out.RaceLog, 4000))
@@ -403,6 +403,43 @@ func (o *RunOut) Races() int {
 		return o.Res.Races
 	}
 	return strings.Count(o.RaceLog, "WARNING: DATA RACE")
+}
+
+// libraryRace: at least one report whose two conflicting accesses both happen in
+// code of the module under test (top frame of each access stack), not in the
+// hook runtime or the node.
+func libraryRace(mod, log string) bool {
+	for _, rep := range strings.Split(log, "WARNING: DATA RACE") {
+		tops := 0
+		inLib := 0
+		lines := strings.Split(rep, "\n")
+		for i, ln := range lines {
+			t := strings.TrimSpace(ln)
+			if (strings.HasPrefix(t, "Read at ") || strings.HasPrefix(t, "Write at ") || strings.HasPrefix(t, "Previous read at ") || strings.HasPrefix(t, "Previous write at ") ||
+				strings.HasPrefix(t, "Atomic read at ") || strings.HasPrefix(t, "Atomic write at ") || strings.HasPrefix(t, "Previous atomic ")) && i+1 < len(lines) {
+				tops++
+				top := strings.TrimSpace(lines[i+1])
+				// skip runtime / std frames at the very top (memmove, mapaccess, ...): first frame that belongs to the module or the harness
+				for j := i + 1; j < len(lines) && j < i+40; j += 2 {
+					f := strings.TrimSpace(lines[j])
+					if f == "" {
+						break
+					}
+					if strings.HasPrefix(f, mod) {
+						top = f
+						break
+					}
+				}
+				if strings.HasPrefix(top, mod) && !strings.HasPrefix(top, mod+"/zz_sim") {
+					inLib++
+				}
+			}
+		}
+		if tops >= 2 && inLib >= 2 {
+			return true
+		}
+	}
+	return false
 }
 
 // leakWhere names the first module function on a leaked goroutine's stack.
